@@ -31,7 +31,7 @@ func sameVals(a interface {
 func runC09(c *ev.Ctx) {
 	c.Rule = "multi-epoch DAGs (2..4 planned epochs, sealing frame seeded in 1..15, next validator set unchanged / re-weighted / shrunk / grown / swapped; every 4th DAG in the sleeper regime where multi-frame roots decide frames). " +
 		"Oracle right after the Process call whose EndBlock returned a set: epoch = old+1; validators (canonical ids and weights) equal the returned set; last decided frame = 0; no further block was emitted by that call after the sealing block; the next block carries the new epoch and frame 1; " +
-		"and Reset twins: (a) an instance that lived through an unrelated warm-up epoch and (b) an instance stopped in the MIDDLE of the previous epoch (live election state) are Reset(epoch, set), and (c) an instance that sealed the previous epoch itself and was restarted right after the seal and/or at a random later point of the new epoch, are fed only the new epoch's events: their blocks equal the sealing instance's blocks for that epoch and the reference model's. " +
+		"and Reset twins: (a) an instance that lived through an unrelated warm-up epoch and (b) an instance stopped in the MIDDLE of the previous epoch (live election state) are Reset(epoch, set), (c) an instance stopped in the middle of THIS epoch and Reset to the same epoch number and set, and (d) an instance that sealed the previous epoch itself and was restarted right after the seal and/or at a random later point of the new epoch, are fed only the new epoch's events: their blocks equal the sealing instance's blocks for that epoch and the reference model's. " +
 		"non-trivial = distinct DAG fingerprint with >=1 seal whose new set changes the canonical order or membership and >=1 block decided in the new epoch"
 	c.Assumptions = []string{"cheaters < 1/3", "events of the old epoch arriving after the seal are dropped by the driver"}
 	nD := c.Pick(400, 6000)
@@ -143,9 +143,30 @@ func runC09(c *ev.Ctx) {
 			ed := d.Epochs[ei]
 			want := blocksOf(t.Blocks, ed.Plan.Epoch)
 			newEpochBlocks += len(want)
-			for variant := 0; variant < 3; variant++ {
+			for variant := 0; variant < 4; variant++ {
 				var tw *cons.Inst
-				if variant == 2 {
+				if variant == 3 {
+					// an instance that is already inside this very epoch (some of its events processed, election live) is
+					// Reset to the same epoch number and set: it must forget everything and behave like a fresh one
+					tw = cons.NewInst(ed.Plan.Epoch, ed.Plan.Validators(), nil, cons.InstCfg{Index: cons.IndexCfg((i + 3) % 3)})
+					stop := len(ed.Events) * (1 + r.Intn(3)) / 4
+					for _, e := range ed.Events[:stop] {
+						if tw.Epoch() != ed.Plan.Epoch {
+							break
+						}
+						if err := tw.Process(e); err != nil {
+							viol(cons.DEventRejected, map[string]interface{}{"event": e.Name, "err": err.Error(), "twin": "same-epoch reset"})
+							return
+						}
+					}
+					tw.Blocks = nil
+					tw.Seal = policy
+					if err := tw.Reset(ed.Plan.Epoch, ed.Plan.Validators()); err != nil {
+						viol("reset-failed", map[string]interface{}{"err": err.Error(), "twin": "same-epoch reset"})
+						return
+					}
+					c.Count("resets_to_the_epoch_the_instance_is_in", 1)
+				} else if variant == 2 {
 					// an instance that seals the previous epoch itself and is restarted right after the seal:
 					// what the seal left in the databases must be the complete, clean new epoch
 					prev := d.Epochs[ei-1]
